@@ -1,4 +1,5 @@
 import Desert.Sexp
+import Desert.Bits
 /-!
 Line-protocol driver: one request per line on stdin, one response per line on stdout.
 Executes the model's definitions (`enc`, `dec` through `runCtx` and `runAbs`, var-ints, …) so the
@@ -50,6 +51,28 @@ def step (env : Env) (line : String) : Env × String :=
     match n.toInt? with
     | some k => (env, if decide (inI32 k) then s!"ok {hexOfBytes (zz k)}" else "bad-request range")
     | none => (env, "bad-request int")
+  | some [.atom "bvaru", .atom n] =>
+    match n.toNat? with
+    | some k => (env, if k < 2 ^ 32 then s!"ok {hexOfBytes ((Bits.writeVarU32 (BitVec.ofNat 32 k)).map fun b => byteOf b.toNat)}" else "bad-request range")
+    | none => (env, "bad-request nat")
+  | some [.atom "bvari", .atom n] =>
+    match n.toInt? with
+    | some k => (env, if decide (inI32 k) then s!"ok {hexOfBytes ((Bits.writeVarI32 (BitVec.ofInt 32 k)).map fun b => byteOf b.toNat)}" else "bad-request range")
+    | none => (env, "bad-request int")
+  | some [.atom "brvaru", .atom h] =>
+    match bytesOfHex h with
+    | some b =>
+      match Bits.readVarU32 (b.map fun x => BitVec.ofNat 8 x.toNat) with
+      | some (v, rest) => (env, s!"ok {v.toNat} {b.length - rest.length}")
+      | none => (env, "err InputEndedUnexpectedly")
+    | none => (env, "bad-request hex")
+  | some [.atom "brvari", .atom h] =>
+    match bytesOfHex h with
+    | some b =>
+      match Bits.readVarI32 (b.map fun x => BitVec.ofNat 8 x.toNat) with
+      | some (v, rest) => (env, s!"ok {v.toInt} {b.length - rest.length}")
+      | none => (env, "err InputEndedUnexpectedly")
+    | none => (env, "bad-request hex")
   | some [.atom "rvaru", .atom h] =>
     match bytesOfHex h with
     | some b =>
